@@ -289,7 +289,8 @@ def generic_case(col, r, idx):
             continue        # the dependent groups have their own record-model workloads
         try:
             op = g.value_op(path, m, a, d, k)
-            if op is not None and idx % 8 == 0 and trial == 0 and isinstance(op.assigned, D):
+            if op is not None and idx % 8 == 0 and trial == 0 and isinstance(op.assigned, D) and '._values.items[' not in path:
+                # (not among `custom` values: a signed number after a number there is the documented ambiguity)
                 # every 8th document: a positive value with more digits than the decimal context keeps (no arithmetic is involved
                 # in storing and reading it)
                 lv = D(f'{r.choice(["", "-"])}{r.randint(10 ** 28, 10 ** r.randint(29, 40))}E-{r.randint(0, 30)}')
